@@ -22,7 +22,7 @@ Proof.
   - lia.
   - unfold cap; simpl. lia.
   - discriminate.
-  - intros t _. unfold cap, two32; simpl. split; [lia|reflexivity].
+  - intros t _. unfold rd_start, cap, two32; simpl. split; [lia|]. intros _. vm_compute. discriminate.
   - intros m _. reflexivity.
 Qed.
 
@@ -72,3 +72,36 @@ Example rb_precondition_needed :
   let s := exec sys (step good_params) (init ex_nothr) (rounds 12 [0]%nat ++ rounds 12 [1]%nat) in
   s_lapped s = true /\ t_cnt (s_thr s 1%nat) = 0.
 Proof. vm_compute. split; reflexivity. Qed.
+
+(* LATE JOINERS, DIFFERENT RESIDUES, EARLY STOP.  Capacity 8, three messages written before the
+   threads start (cursor 3); reader 2 starts at the cursor (first index 2^32-5, position 3), reader 3
+   joins late at the oldest message (first index 8 = position 0) and stops after 4 reads, reader 4
+   starts one behind the cursor across the 32-bit wrap (first index 2^32-6, position 2): every first
+   index is accepted by wf_cfg, all three receive the messages at their logical positions, and the
+   reader that stopped early does not hold the writers back (throttle on, precondition never violated) *)
+Definition ex_late : cfg :=
+  {| c_k := 3; c_wm := WLock; c_rm := RWait; c_nw := 2; c_nr := 3; c_thr := true; c_pre := 3;
+     c_wcnt := fun _ => 6%nat;
+     c_rq := fun t => if Nat.eqb t 3 then 4%nat else if Nat.eqb t 4 then 13%nat else 12%nat;
+     c_idx0 := fun t => if Nat.eqb t 3 then 8 else if Nat.eqb t 4 then two32 - 6 else two32 - 5;
+     c_val := fun m => m |}.
+Lemma ex_late_wf : wf_cfg ex_late.
+Proof.
+  constructor; simpl.
+  - lia.
+  - unfold cap; simpl. lia.
+  - discriminate.
+  - intros t _. unfold rd_start, cap, two32, ex_late; simpl.
+    destruct (Nat.eqb t 3); [split; [lia|intros _; vm_compute; discriminate]|].
+    destruct (Nat.eqb t 4); split; try lia; intros _; vm_compute; discriminate.
+  - intros m _. reflexivity.
+Qed.
+Example rb_late_joiners_nonvacuous :
+  let s := exec sys (step good_params) (init ex_late) (rounds 400 [0;1;2;3;4]%nat) in
+  s_lapped s = false /\ s_uncov s = 0%nat /\ s_nw s = 15 /\
+  rd_start ex_late 2 = 3 /\ rd_start ex_late 3 = 0 /\ rd_start ex_late 4 = 2 /\
+  t_cnt (s_thr s 2%nat) = 12 /\ t_cnt (s_thr s 3%nat) = 4 /\ t_cnt (s_thr s 4%nat) = 13 /\
+  map (t_got (s_thr s 3%nat)) [0;1;2;3] = map (s_wr s) [0;1;2;3] /\
+  map (t_got (s_thr s 4%nat)) [0;1;12] = map (s_wr s) [2;3;14] /\
+  map (t_got (s_thr s 2%nat)) [0;11] = map (s_wr s) [3;14].
+Proof. vm_compute. repeat split; reflexivity. Qed.
